@@ -122,6 +122,24 @@ def run_tr(case):
         from sigma.exceptions import SigmaError
         out["apply_exc"] = {"exc": type(e).__name__, "sigma": isinstance(e, SigmaError), "msg": str(e)[:160]}
         return out
+    # 1b. keyword entries mapped to a field by a leading null-key mapping: what the documented source-level entry
+    #     loads to, next to what the pipeline's first item made of the keyword entry (only the values matter)
+    kd = spec.kw_documented(case)
+    if kd:
+        r1 = SigmaRule.from_dict(copy.deepcopy(case["rule"]))
+        p1 = spec.denull(case["pipeline"])
+        p1["transformations"] = p1["transformations"][:1]
+        ProcessingPipeline.from_dict(p1).apply(r1)
+        out["kwdoc"] = []
+        for name, pos, docs in kd:
+            det = r1.detection.detections[name]
+            got = ser_det(det.detection_items[pos])
+            got_items = got["items"] if "items" in got else [got]
+            loaded = [ser_det(SigmaDetection.from_definition(copy.deepcopy(d)).detection_items[0]) for d in docs]
+            strip = lambda x: [x["f"], x["vs"], x["all"], x["neg"]]
+            out["kwdoc"].append({"name": name, "pos": pos, "doc": docs, "loaded": [strip(x) for x in loaded],
+                                 "got": [strip(x) for x in got_items],
+                                 "ok": [strip(x) for x in loaded] == [strip(x) for x in got_items]})
     # 2. conversion of rule + pipeline through the API
     out["q1"] = convert(SigmaRule.from_dict(copy.deepcopy(case["rule"])),
                         ProcessingPipeline.from_dict(spec.denull(case["pipeline"])))
